@@ -15,7 +15,7 @@ RULE = ('(a) bounded complete sweep: for each base scenario (transport x timeout
         'clauses), EOF arrives within 3 virtual s of the peer ending, every read <= size, socket timeout unchanged after every '
         'call (the application may re-time its socket between reads). Added later: unicode mode with multi-byte payloads, '
         'Thread.is_alive() as a pre-emption point, EINTR, processes with > 1024 descriptors where select() raises (use_poll=True). '
-        'Ninth round: the fault kind interrupt (an exception from outside -- Ctrl-C, a raising signal handler -- abandons the call where it really waits: select/poll/recv/sleep/waitpid; the application goes on using the object) in all three drain modes: nothing returned may be lost, the socket keeps its own timeout. Non-trivial: peer wrote >= 1 byte; distinct by trace digest')
+        'Ninth round: the fault kind interrupt (an exception from outside -- Ctrl-C, a raising signal handler -- abandons the call where it really waits: select/poll/recv/sleep/waitpid; the application goes on using the object) in all three drain modes: nothing returned may be lost, the socket keeps its own timeout. Tenth round: drain mode read_n (a bounded search that times out, then read(size) to the end of the stream). Non-trivial: peer wrote >= 1 byte; distinct by trace digest')
 
 ASSUME = ['complete writes on blocking descriptors; peer death latency (descriptors closed -> reapable) <= 20 ms',
           'pty output queued before the slave closes stays readable by the master (Linux behaviour, calibrated)',
